@@ -1,8 +1,18 @@
 package main
 
 import (
+	"bufio"
+	"crypto/ecdsa"
+	"crypto/elliptic"
+	"crypto/rand"
+	"crypto/tls"
+	"crypto/x509"
+	"crypto/x509/pkix"
 	"errors"
 	"fmt"
+	"math/big"
+	"net"
+	"net/url"
 	"regexp"
 	"sort"
 	"strings"
@@ -13,12 +23,14 @@ import (
 	"github.com/fluffle/goirc/client"
 	"github.com/fluffle/goirc/logging"
 
+	"golang.org/x/net/proxy"
+
 	"verif/harness/drv"
 	"verif/harness/memconn"
 )
 
 func init() {
-	register("C20", "sessions with a capturing logging.Logger at all four levels: random printable passwords (8-32 bytes, also ones beginning with PASS, containing spaces, colons, %-verbs) x negotiation on/off x tracking on/off x {normal session with traffic, server closes at once, dial error, TLS handshake failure, the 1st..4th write failing (so the failure lands on CAP LS / PASS / NICK / USER), flood protection on with a reconnect right after a burst (the PASS line is held back by rate limiting), Config().Pass cleared / replaced / shortened right after Connect while the PASS line is still queued behind a gated socket}; no record (format, any argument, or the rendered text) may contain the password (Spec.Register.occurs, evaluated by the driver), twin runs with same-length passwords must log identically, and the text logged for each outgoing line is compared with the model's logOf; non-trivial = session logged the masked PASS line; distinct by (password, scenario)", c20)
+	register("C20", "sessions with a capturing logging.Logger at all four levels: random printable passwords (8-32 bytes, also ones beginning with PASS, containing spaces, colons, %-verbs) x negotiation on/off x tracking on/off x {normal session with traffic, server closes at once, dial error, TLS handshake failure, the 1st..4th write failing (so the failure lands on CAP LS / PASS / NICK / USER), flood protection on with a reconnect right after a burst (the PASS line is held back by rate limiting), Config().Pass cleared / replaced / shortened right after Connect while the PASS line is still queued behind a gated socket, a real TLS session (self-signed certificate made at run time, over an in-memory pipe)}; no record (format, any argument, or the rendered text) may contain the password (Spec.Register.occurs, evaluated by the driver), twin runs with same-length passwords must log identically, and the text logged for each outgoing line is compared with the model's logOf; non-trivial = session logged the masked PASS line; distinct by (password, scenario)", c20)
 }
 
 type capLogger struct {
@@ -164,6 +176,53 @@ func c20Session(pass string, capNeg, track bool, scenario int) (*capLogger, []st
 			wire = sc.Lines()
 			conn.Close()
 		}
+	case 12: // a real TLS session (Config.SSL) over an in-memory pipe: what the logger sees must not depend on the transport
+		tlsOnce.Do(tlsSetup)
+		if tlsCert == nil {
+			return lg, nil
+		}
+		srvDone := make(chan []string, 1)
+		tlsMu.Lock()
+		tlsServe = func(raw net.Conn) {
+			var got []string
+			defer func() { srvDone <- got }()
+			sc := tls.Server(raw, &tls.Config{Certificates: []tls.Certificate{*tlsCert}})
+			raw.SetDeadline(time.Now().Add(5 * time.Second))
+			if sc.Handshake() != nil {
+				return
+			}
+			rd := bufio.NewReader(sc)
+			for {
+				l, err := rd.ReadString('\n')
+				if err != nil {
+					return
+				}
+				l = strings.TrimRight(l, "\r\n")
+				got = append(got, l)
+				if strings.HasPrefix(l, "USER ") {
+					sc.Write([]byte(":irc.test CAP * LS :sasl x\r\n:irc.test 001 me :Welcome me!ident@host\r\n"))
+					time.Sleep(20 * time.Millisecond)
+					sc.Close()
+					return
+				}
+			}
+		}
+		tlsMu.Unlock()
+		cfg := client.NewConfig("me")
+		cfg.Server, cfg.Proxy, cfg.Flood, cfg.PingFreq, cfg.SSL = "irc.test", "veriftls://x", true, 0, true
+		cfg.SSLConfig = &tls.Config{InsecureSkipVerify: true}
+		cfg.Timeout = 5 * time.Second
+		mod(cfg)
+		conn := client.Client(cfg)
+		pre(conn)
+		if conn.Connect() == nil {
+			select {
+			case wire = <-srvDone:
+			case <-time.After(6 * time.Second):
+			}
+			time.Sleep(10 * time.Millisecond)
+			conn.Close()
+		}
 	case 2: // dial error
 		url, _ := memconn.Listen()
 		memconn.FailDial(url, errors.New("connection refused"))
@@ -192,6 +251,44 @@ func c20Session(pass string, capNeg, track bool, scenario int) (*capLogger, []st
 	return lg, wire
 }
 
+// a TLS server end for scenario 12: a self-signed certificate made at run time, a proxy dialer type that hands the
+// client one end of a net.Pipe and the other end to the current serve function
+var (
+	tlsOnce  sync.Once
+	tlsCert  *tls.Certificate
+	tlsMu    sync.Mutex
+	tlsServe func(net.Conn)
+)
+
+type tlsDialer struct{}
+
+func (tlsDialer) Dial(network, addr string) (net.Conn, error) {
+	a, b := net.Pipe()
+	tlsMu.Lock()
+	f := tlsServe
+	tlsMu.Unlock()
+	if f == nil {
+		return nil, errors.New("no TLS server")
+	}
+	go f(b)
+	return a, nil
+}
+
+func tlsSetup() {
+	key, err := ecdsa.GenerateKey(elliptic.P256(), rand.Reader)
+	if err != nil {
+		return
+	}
+	tmpl := &x509.Certificate{SerialNumber: big.NewInt(1), Subject: pkix.Name{CommonName: "irc.test"}, NotBefore: time.Now().Add(-time.Hour), NotAfter: time.Now().Add(24 * time.Hour),
+		KeyUsage: x509.KeyUsageDigitalSignature, ExtKeyUsage: []x509.ExtKeyUsage{x509.ExtKeyUsageServerAuth}, DNSNames: []string{"irc.test"}}
+	der, err := x509.CreateCertificate(rand.Reader, tmpl, tmpl, &key.PublicKey, key)
+	if err != nil {
+		return
+	}
+	tlsCert = &tls.Certificate{Certificate: [][]byte{der}, PrivateKey: key}
+	proxy.RegisterDialerType("veriftls", func(*url.URL, proxy.Dialer) (proxy.Dialer, error) { return tlsDialer{}, nil })
+}
+
 var listenerID = regexp.MustCompile(`verif://l[0-9]+`)
 
 // canonLog makes two runs comparable: listener ids are per session, and the
@@ -213,6 +310,10 @@ func c20(c *Ctx) {
 		capNeg, track, scenario := c.R.Bool(), c.R.Bool(), c.R.N(8)
 		if c.R.P(1, 6) {
 			scenario = 9 + c.R.N(3)
+		}
+		if i == 1 || (i > 1 && c.R.P(1, 10)) {
+			scenario = 12 // TLS
+			capNeg = i == 1 || capNeg
 		}
 		if c.R.P(1, 3) {
 			scenario = 0
